@@ -31,6 +31,20 @@ type small int8
 
 type mystr string
 
+// a map with an entry that no lookup can find (NaN is not equal to itself)
+func mkf(n int) map[float64]int {
+	m := map[float64]int{}
+	if n > 0 {
+		m[nan()] = n*10 + 4
+	}
+	return m
+}
+
+func nan() float64 {
+	z := 0.0
+	return z / z
+}
+
 func tick(n int) int { return vrt.V(9000+n%7, n) }`
 
 var strAlphabet = []string{"a", "z", "é", "€", "\U0001F600", "\xff", "\xc3", "\xe2\x82", "\xed\xa0\x80", "\x80", "\xf0\x9f", "\x00",
@@ -58,7 +72,7 @@ func (c *fctx) rangeStmt() []*S {
 	}
 	opts := []opt{}
 	if cfg.Ranges {
-		opts = append(opts, opt{"slice", 5}, opt{"array", 3}, opt{"string", 4}, opt{"map", 3}, opt{"chan", 2}, opt{"int", 4}, opt{"small", 1})
+		opts = append(opts, opt{"slice", 5}, opt{"array", 3}, opt{"string", 4}, opt{"map", 3}, opt{"chan", 2}, opt{"int", 4}, opt{"small", 1}, opt{"mapnan", 1})
 	}
 	if cfg.Consume {
 		opts = append(opts, opt{"iter", 6}, opt{"pull", 3})
@@ -141,6 +155,9 @@ func (c *fctx) rangeStmt() []*S {
 			loop.Body = []*S{{K: SAssign, Name: acc[r.Intn(len(acc))], Op: "+=", E: bin(v("mk"), "+", bin(v("mv"), "*", lit(3)))}}
 			return append(pre, loop)
 		}
+	case "mapnan":
+		keyInt = false
+		loop.E = &X{K: XCall, Name: "mkf", Args: []*X{lit(r.Intn(2))}}
 	case "chan":
 		loop.E = &X{K: XCall, Name: "mkc", Args: []*X{size()}}
 		if form == 0 || form == 2 || form == 4 {
@@ -208,7 +225,7 @@ func (c *fctx) rangeStmt() []*S {
 		body = append(body, &S{K: SDecl, Name: name, E: &X{K: XRaw, S: "int(" + loop.Name2 + ")"}})
 		d.sc.declare(name, vInt)
 	}
-	if !keyInt && loop.Name != "" {
+	if !keyInt && loop.Name != "" && loop.Name != "_" && kind != "mapnan" {
 		name := d.fresh(intPool)
 		body = append(body, &S{K: SDecl, Name: name, E: &X{K: XRaw, S: "int(" + loop.Name + ")"}})
 		d.sc.declare(name, vInt)
